@@ -122,6 +122,9 @@ Fixpoint first_comp (d : N) (s : name) : name * name :=
 Definition canon_first (d : N) (n : name) : name :=
   let (f, r) := first_comp d n in if mb_eqfold f INBOX then INBOX ++ r else n.
 
+(* command.ParseMailbox: a whole name that is INBOX in any case (also the reference argument of LIST/LSUB) *)
+Definition parse_mailbox (n : name) : name := if mb_eqfold n INBOX then INBOX else n.
+
 (* joinMailboxName(levels): the first level is compared as a whole *)
 Definition conn_name (d : N) (levels : list name) : name :=
   mb_join d (match levels with c :: t => if mb_eqfold c INBOX then INBOX :: t else levels | [] => [] end).
